@@ -403,6 +403,7 @@ where
             let weight = entry.policy_weight();
             self.deques.unlink_ao(&mut entry);
             Deques::unlink_wo(&mut self.deques.write_order, &mut entry);
+            self.entry_count -= 1;
             self.saturating_sub_from_total_weight(weight as u64);
         }
     }
@@ -415,6 +416,7 @@ where
     pub fn invalidate_all(&mut self) {
         self.cache.clear();
         self.deques.clear();
+        self.entry_count = 0;
         self.weighted_size = 0;
     }
 
@@ -447,15 +449,18 @@ where
             .collect::<Vec<_>>();
 
         let mut invalidated = 0u64;
+        let mut invalidated_count = 0u64;
 
         keys_to_invalidate.into_iter().for_each(|k| {
             if let Some(mut entry) = cache.remove(&k) {
                 let weight = entry.policy_weight();
                 deques.unlink_ao(&mut entry);
                 Deques::unlink_wo(&mut deques.write_order, &mut entry);
+                invalidated_count += 1;
                 invalidated = invalidated.saturating_sub(weight as u64);
             }
         });
+        self.entry_count -= invalidated_count;
         self.saturating_sub_from_total_weight(invalidated);
     }
 
